@@ -304,13 +304,27 @@ func run(c *mon.Ctx) {
 		c.Class(fmt.Sprintf("at-offset/mod188=%d/windows=%d", off%188/47, off/188))
 	})
 	// very long prefixes (no limit on how far the search goes)
-	longs := []int{65535, 65536, 65537, 70000, 131072, 200001}
+	// (the last four: more than 65535 / 65536 sync bytes that are not the start of a plausible header in front of
+	// the one that is - every byte 0x47, every fourth, every fifth at random)
+	longs := []int{65535, 65536, 65537, 70000, 131072, 200001, 65535, 65537, 70000, 262144, 400000}
 	c.StreamSeedless("long-prefix", len(longs), func(i int, r *gen.Rand) {
 		off := longs[i]
 		s := make([]byte, off)
 		for k := range s {
-			if r.Chance(5) {
-				s[k] = 0x47
+			switch {
+			case i >= 6 && i <= 8:
+				s[k] = 0x47 // 0x47 0x47 0x47 0x47: PID 0x0747, adaptation_field_control 00
+				if k%4 == 3 {
+					s[k] = 0x07
+				}
+			case i == 9:
+				if k%4 == 0 {
+					s[k] = 0x47
+				}
+			default:
+				if r.Chance(5) {
+					s[k] = 0x47
+				}
 			}
 		}
 		p := packet.Create(0x21, packet.WithHasPayloadFlag)
